@@ -188,8 +188,14 @@ def r07e(model: Model, rr: RuleResult):
     else:
         rr.bad(fi, fi.node, "run splitting does not compare consecutive glyph ids with + 1", construct=f"run predicate {short(inner[0].test) if inner else None}")
     t = " ".join(norm(st) for st in ast.walk(fi.node) if isinstance(st, ast.Assign))
-    if "color_glyph_run = color_glyphs[:end]" in t and "color_glyphs = color_glyphs[end:]" in t:
-        rr.ok("run = first `end` glyphs; the rest is processed next (no glyph lost or repeated)")
+    rest = [st for st in ast.walk(fi.node) if isinstance(st, ast.Assign) and norm(st.targets[0]) == "color_glyphs" and isinstance(st.value, ast.Subscript)
+            and norm(st.value.value) == "color_glyphs" and isinstance(st.value.slice, ast.Slice) and st.value.slice.upper is None]
+    if "color_glyph_run = color_glyphs[:end]" in t and rest:
+        lo = norm(rest[0].value.slice.lower)
+        if lo == "end":
+            rr.ok("run = first `end` glyphs; the rest is processed next (no glyph lost or repeated)")
+        else:
+            rr.bad(fi, rest[0], f"the run is glyphs[:end] but processing resumes at glyphs[{lo}:]: a glyph is dropped from / repeated in the strikes", construct=f"make_cbdt_table: rest = color_glyphs[{lo}:]")
     elif "color_glyph_run = color_glyphs[start:end]" in t:
         # index-walking idiom: the next run must start exactly where this one ended
         nxt = [st for st in ast.walk(fi.node) if isinstance(st, ast.Assign) and norm(st.targets[0]) == "start" and "end" in norm(st.value)]
